@@ -17,6 +17,7 @@ import PgProofs.EvoOrderPerm
 import PgProofs.EvoPmxPerm
 import PgProofs.EvoCyclePerm
 import PgProofs.EvoCycleTotal
+import PgProofs.EvoPmxTotal
 import PgProofs.EvoLaws
 import PgProofs.EvoNestP
 import PgProofs.EvoFuel
@@ -24,6 +25,7 @@ import PgProofs.EvoDetPrims
 import PgModel.EvoSched
 import PgProofs.EvoNumP
 import PgProofs.EvoPropP
+import PgProofs.EvoDriverP
 import Mathlib.Tactic.NormNum
 import Mathlib.Data.List.Perm.Subperm
 namespace Pg.C14
@@ -253,6 +255,25 @@ theorem C14_cycle_children_are_permutations (vx vy : List Nat) (hn : vx.Nodup) (
 with well-formed draws it always returns two arrangements of the items. -/
 theorem C14_cycle_total (vx vy : List Nat) (hn : vx.Nodup) (hp : vy.Perm vx) (st : St) :
     permuteCycle vx vy st ≠ .error .key := permuteCycle_total hn hp st
+
+/-- … and so is the partially mapped crossover: from a position outside the copied segment the
+re-mapping walk `v -> self[index_in_other(v)]` leaves the segment within `stop - start` steps
+(pigeonhole: the positions it visits inside are pairwise different), and the value it finds there was
+not given to an earlier position (the first-return map is injective): `while v in assigned` always
+ends, no KeyError — for any cut points both children exist … -/
+theorem C14_pmx_child_total (vx vy : List Nat) (hn : vx.Nodup) (hp : vy.Perm vx)
+    (start stop : Nat) (h1 : start ≤ stop) (h2 : stop ≤ vx.length) :
+    ∃ c0 c1, pmxChild vx vy start stop = some c0 ∧ pmxChild vy vx start stop = some c1 ∧
+      c0.Perm vx ∧ c1.Perm vx := by
+  obtain ⟨c0, h0⟩ := Option.isSome_iff_exists.mp
+    (pmxChild_total (hp.nodup_iff.mpr hn) hp.symm start stop h1 h2)
+  obtain ⟨c1, h1'⟩ := Option.isSome_iff_exists.mp
+    (pmxChild_total hn hp start stop h1 (by rw [hp.length_eq]; exact h2))
+  exact ⟨c0, c1, h0, h1', C14_pmx_children_are_permutations vx vy hn hp start stop h1 h2 c0 c1 h0 h1'⟩
+
+/-- … and the operator on recorded draws never raises KeyError. -/
+theorem C14_pmx_total (vx vy : List Nat) (hn : vx.Nodup) (hp : vy.Perm vx) (st : St) :
+    permutePMX vx vy st ≠ .error .key := permutePMX_total vx vy hn hp st
 
 /-! ## Numeric recombinators `Average` / `WeightedAverage` (exact rationals) -/
 
@@ -675,6 +696,108 @@ theorem C14_det (e : OpExpr) (pop : Pop) (st₁ st₂ : St) (h : st₁.oracle = 
     (hu : st₁.nextUid = st₂.nextUid) : eval e pop st₁ = eval e pop st₂ := by
   cases st₁; cases st₂; simp only at h hu; subst h; subst hu; rfl
 
+/-! ## The driver level: `Evolution._propose` / `_evolve` / `_feedback` (base.py:699-789)
+
+`EvoCfg` is an `Evolution(reproduction, population_init=(pg.geno.Random(seed), n), population_update)`;
+`propose` / `feedback` / `runRounds` mirror the bookkeeping of population, pending proposals, counters
+and per-object metadata (PgModel/EvoDriver.lean; compared with real propose/feedback traces of
+`Evolution`, `regularized_evolution` and `hill_climb`). -/
+
+/-- objects a pipeline returns are objects it was given or created: the upper bound on identities,
+which composes through the whole algebra. -/
+def Fresh (g : GSpec) (op : Op) : Prop := Bounded (fun y => valid g y.dna = true) op
+
+theorem C14_fresh_of_pure (g : GSpec) {op : Op} (h : Pure g op) : Fresh g op := by
+  intro pop st out st' hp hr
+  obtain ⟨hle, hout⟩ := h pop st out st' (fun x hx => (hp x hx).1) hr
+  refine ⟨fun y hy => ?_, hle⟩
+  obtain ⟨hv, hy'⟩ := hout y hy
+  refine ⟨hv, ?_⟩
+  rcases hy' with hin | ⟨_, hlt⟩
+  · exact Nat.lt_of_lt_of_le (hp y hin).2 hle
+  · exact hlt
+
+theorem C14_algebra_fresh (g : GSpec) (e : OpExpr) (h : ∀ op ∈ leaves e, Fresh g op) : Fresh g (eval e) :=
+  eval_bounded e h
+
+/-- **the clone rule of `_evolve`**: in a driver state that only knows objects created so far, one
+round of evolution returns at least one proposal; the proposals are pairwise different objects, each
+holds valid DNA and has never been evaluated (an evaluated child — e.g. a parent passed through by
+`with_prob(0.0)` or `Identity` — and a child the pipeline returned twice are replaced by new objects);
+the `j`-th proposal carries proposal id `num_proposals + 1 + j` and the next generation number; the
+metadata of every evaluated individual and the population are exactly what they were. -/
+theorem C14_driver_clone_rule (cfg : EvoCfg) (hrep : ∀ n, Fresh cfg.g (eval (cfg.reproduction n)))
+    (es : EvoSt) (st : St) (cs : List Ind) (es' : EvoSt) (st' : St)
+    (hi : DriverInv cfg.g es st.nextUid) (h : evolve cfg es st = .ok ((cs, es'), st')) :
+    cs ≠ [] ∧ (cs.map (·.uid)).Nodup ∧
+    (∀ c ∈ cs, Valid cfg.g c.dna ∧ evaluated es' c.uid = false) ∧
+    (∀ j (hj : j < cs.length), metaOf es' (cs[j]).uid =
+      some { proposalId := es.numProposals + 1 + j, generation := es.numGenerations + 1,
+             initial := false, fsn := none }) ∧
+    (∀ u, evaluated es u = true → metaOf es' u = metaOf es u) ∧ es'.pop = es.pop := by
+  obtain ⟨e0, e1, e2, e3, _, _, _, e7, e8⟩ := evolve_inv cfg hrep es st cs es' st' hi h
+  exact ⟨e0, e7, fun c hc => ⟨(e1 c hc).1.1, (e1 c hc).2⟩, e8, e2, e3⟩
+
+/-- the hypothesis of the clone rule is an invariant of whole runs from the fresh driver state. -/
+theorem C14_driver_invariant (cfg : EvoCfg) (hrep : ∀ n, Fresh cfg.g (eval (cfg.reproduction n)))
+    (hupd : ∀ u, cfg.update = some u → ∀ n, Fresh cfg.g (eval (u n)))
+    (rs : List Int) (st : St) (tr : List (Ind × Meta)) (es' : EvoSt) (st' : St)
+    (h : runRounds cfg rs {} st = .ok ((tr, es'), st')) : DriverInv cfg.g es' st'.nextUid :=
+  (runRounds_inv cfg hrep hupd rs {} st tr es' st' (driverInv_init _ _) h).1
+
+/-- **every proposal of a run is valid DNA of the search space**, whatever the rewards, as soon as the
+two pipelines are closed over valid DNA; `k` rounds move both counters by `k`. -/
+theorem C14_driver_proposals_valid (cfg : EvoCfg) (hrep : ∀ n, Closed cfg.g (eval (cfg.reproduction n)))
+    (hupd : ∀ u, cfg.update = some u → ∀ n, Closed cfg.g (eval (u n)))
+    (rs : List Int) (st : St) (tr : List (Ind × Meta)) (es' : EvoSt) (st' : St)
+    (h : runRounds cfg rs {} st = .ok ((tr, es'), st')) :
+    (∀ p ∈ tr, Valid cfg.g p.1.dna) ∧ tr.length = rs.length ∧
+    es'.numProposals = rs.length ∧ es'.numFeedbacks = rs.length := by
+  obtain ⟨h1, h2, _, h4, h5⟩ := runRounds_spec cfg hrep hupd rs {} st tr es' st' ⟨by simp, by simp⟩ h
+  exact ⟨h1, h2, by simpa using h4, by simpa using h5⟩
+
+/-- `regularized_evolution(mutator=Uniform(), population_size, tournament_size)` as the model's driver
+sees it: `Random(t) >> Top(1) >> Uniform()`, update `Last(p)`. -/
+def regularizedCfg (g : GSpec) (p t : Nat) : EvoCfg :=
+  { g := g, fuel := depth g + 2,
+    reproduction := fun _ => .seq (.seq (.leaf (selRandom (.count t) false)) (.leaf (selTop (.count 1))))
+                                  (.leaf (mutUniform (depth g + 2) g)),
+    update := some (fun _ => .leaf (selLast (.count p))), initSize := p }
+
+/-- the hypotheses are met by the shipped algorithm: regularized evolution only ever proposes valid DNA. -/
+theorem C14_driver_regularized (g : GSpec) (p t : Nat) (rs : List Int) (st : St) (tr : List (Ind × Meta))
+    (es' : EvoSt) (st' : St) (h : runRounds (regularizedCfg g p t) rs {} st = .ok ((tr, es'), st')) :
+    (∀ q ∈ tr, Valid g q.1.dna) ∧ DriverInv g es' st'.nextUid := by
+  have hsel : ∀ {op : Op} {count : Nat → Nat}, SelectorLaw op count → Pure g op := fun hl => C14_pure_selector g hl
+  have hrepP : ∀ op ∈ leaves ((regularizedCfg g p t).reproduction 0), Pure g op := by
+    intro op ho
+    simp only [regularizedCfg, leaves, List.mem_append, List.mem_singleton] at ho
+    rcases ho with (rfl | rfl) | rfl
+    · exact hsel (C14_selector_Random _ _)
+    · exact hsel (C14_selector_Top _)
+    · exact C14_pure_mutUniform _ _
+  have hupdP : Pure g (selLast (.count p)) := hsel (C14_selector_Last _)
+  refine ⟨(C14_driver_proposals_valid (regularizedCfg g p t) ?_ ?_ rs st tr es' st' h).1,
+    C14_driver_invariant (regularizedCfg g p t) ?_ ?_ rs st tr es' st' h⟩
+  · intro n
+    exact C14_algebra_closed g _ (fun op ho pop s out s' hp hr y hy => ((hrepP op ho pop s out s' hp hr).2 y hy).1)
+  · intro u hu n
+    simp only [regularizedCfg, Option.some.injEq] at hu
+    subst hu
+    exact C14_algebra_closed g _ (fun op ho pop s out s' hp hr y hy => by
+      simp only [leaves, List.mem_singleton] at ho
+      subst ho
+      exact ((hupdP pop s out s' hp hr).2 y hy).1)
+  · intro n
+    exact C14_algebra_fresh g _ (fun op ho => C14_fresh_of_pure g (hrepP op ho))
+  · intro u hu n
+    simp only [regularizedCfg, Option.some.injEq] at hu
+    subst hu
+    exact C14_algebra_fresh g _ (fun op ho => by
+      simp only [leaves, List.mem_singleton] at ho
+      subst ho
+      exact C14_fresh_of_pure g hupdP)
+
 /-! ## Non-vacuity -/
 
 example : Valid f21Spec f21Dna ∧ Aligned f21Dna := ⟨by unfold Valid; decide, by unfold Aligned; decide⟩
@@ -699,6 +822,19 @@ example : ∃ out st', recOrder (.space [.choices 3 [.space [], .space [], .spac
                          .space [.choices [.sub 0 2 (.space []), .sub 1 1 (.space []), .sub 2 0 (.space [])]]]],
       nextUid := 2 } = .ok (out, st') ∧ out.map (·.uid) = [2, 3] :=
   ⟨_, _, rfl, rfl⟩
+/-- three rounds of `Evolution(Last(1) >> Uniform(), population_init=(Random, 2), population_update=Last(2))`
+over a one-of-three choice: two initial proposals, then a mutated child of the latest individual with
+proposal id 3 in generation 2; the population keeps the last two evaluated individuals. -/
+example : ∃ tr es' st', runRounds
+    { g := .space [.choices 1 [.space [], .space [], .space []] false false], fuel := 3,
+      reproduction := fun _ => .seq (.leaf (selLast (.count 1)))
+        (.leaf (mutUniform 3 (.space [.choices 1 [.space [], .space [], .space []] false false]))),
+      update := some (fun _ => .leaf (selLast (.count 2))), initSize := 2 }
+    [1, 3, 2] {} { oracle := [.idx .randint 3 0, .idx .randint 3 1, .idx .choice 1 0, .idx .randint 3 0],
+                   nextUid := 0 } = .ok ((tr, es'), st') ∧
+    tr.map (fun q => (q.2.proposalId, q.2.generation, q.2.initial)) = [(1, 1, true), (2, 1, true), (3, 2, false)] ∧
+    es'.pop.map (·.fit) = [some 3, some 2] ∧ st'.oracle = [] := by
+  refine ⟨_, _, _, rfl, ?_, ?_, ?_⟩ <;> rfl
 example : ∀ op ∈ leaves (.seq (.leaf (selFirst (.count 1))) (.leaf (mutSwap f21Spec))), Closed f21Spec op := by
   intro op ho
   simp only [leaves, List.mem_append, List.mem_singleton] at ho
